@@ -336,16 +336,11 @@ fn serializers(rt: &ConjureRuntime, registry: &[Enc], lines: &[String], chosen: 
             Err(serde::ser::Error::custom("fails midway"))
         }
     }
-    // (an Error captures a back-trace: one response in 32 is preceded by a failing one)
-    thread_local! {
-        static TICK: std::cell::Cell<u32> = std::cell::Cell::new(0);
-    }
+    // (an Error captures a back-trace: one Accept value in 32 - chosen by its text, so that a
+    // replay chooses alike - is preceded by a failing response)
+    let h = lines.iter().flat_map(|l| l.bytes()).fold(0xcbf29ce484222325u64, |h, b| (h ^ b as u64).wrapping_mul(0x100000001b3));
     let poison = || {
-        let n = TICK.with(|t| {
-            t.set(t.get().wrapping_add(1));
-            t.get()
-        });
-        if n % 32 != 1 {
+        if h % 32 != 0 {
             return;
         }
         let _ = vcommon::catch(|| <StdResponseSerializer as SerializeResponse<_, Vec<u8>>>::serialize(rt, &headers, FailsMidway).is_ok());
